@@ -478,7 +478,10 @@ func main() {
 	fold(harness.ExploreBatch("pipe", db, harness.Pick(c, 2, 3), budget, true))
 	// deadline changes against a call that is already pending (all sequences of 1..3 changes)
 	dls := dlFamily()
-	for i, r := range harness.ExploreBatch("dlwake", dls, harness.Pick(c, 2, 3), budget, false) {
+	harness.NoEarlyClock = true // no time passes between the changes of one sequence
+	dlRes := harness.ExploreBatch("dlwake", dls, harness.Pick(c, 2, 3), budget, false)
+	harness.NoEarlyClock = false
+	for i, r := range dlRes {
 		if i%40 == 0 {
 			c.Sample(map[string]any{"scenario": "dlwake(" + r.Param + ")", "executions": r.Stats.Execs, "distinct_observations": len(r.Stats.Observations), "one_observation": anyKey(r.Stats.Observations)})
 		}
